@@ -7,6 +7,7 @@ import (
 	"net"
 	"strings"
 	"sync"
+	"sync/atomic"
 	"time"
 
 	lime "github.com/takenet/lime-go"
@@ -55,6 +56,8 @@ func (c06) Plan(tier string, seed uint64) []core.Case {
 			cases = append(cases, core.Case{ID: fmt.Sprintf("C06/client-inject/%s/%s", tr, st), Engine: "inject", P: map[string]interface{}{"stage": st, "transport": tr}, TimeoutS: 120})
 		}
 	}
+	// a data send that has passed the channel's state check when the session ends, and reaches the transport afterwards
+	cases = append(cases, core.Case{ID: "C06/latesend", Engine: "latesend", Solo: true, P: map[string]interface{}{"rounds": 6}, TimeoutS: 300})
 	cfgs := hsConfigs("quick")
 	if tier == "thorough" {
 		cfgs = hsConfigs("thorough")[:24]
@@ -259,6 +262,8 @@ func (p c06) Run(c core.Case) core.Result {
 		}
 	case "inject":
 		p.clientInject(&r, c)
+	case "latesend":
+		p.lateSend(&r, c)
 	default:
 		runExplorerCase(&r, []string{"C06"}, c)
 	}
@@ -746,4 +751,136 @@ func (p c06) clientInject(r *core.Result, c core.Case) {
 		cleanup()
 	}
 	_ = net.IPv4zero
+}
+
+// lateSend: the hook point channel.send.checked (after the state check, before the transport) holds one client send;
+// the server finishes the session and the client applies the finished state; the send is released. The envelope must
+// not reach the server's handlers.
+func (p c06) lateSend(r *core.Result, c core.Case) {
+	var armed int32
+	entered := make(chan struct{}, 1)
+	release := make(chan struct{})
+	lime.VerifSetPointHandler(func(name string) {
+		if name == "channel.send.checked" && atomic.CompareAndSwapInt32(&armed, 1, 2) {
+			entered <- struct{}{}
+			<-release
+		}
+	})
+	defer lime.VerifSetPointHandler(nil)
+	for round := 0; round < c.Int("rounds", 6); round++ {
+		flavour := []string{rig.InProc, rig.TCP, rig.WS}[round%3]
+		tag := fmt.Sprintf("late send over %s", flavour)
+		var mu sync.Mutex
+		var srvCh *lime.ServerChannel
+		var lateAtHandler bool
+		est := make(chan struct{}, 1)
+		mux := &lime.EnvelopeMux{}
+		mux.MessageHandlerFunc(nil, func(ctx context.Context, m *lime.Message, sd lime.Sender) error {
+			if m.ID == "late" {
+				mu.Lock()
+				lateAtHandler = true
+				mu.Unlock()
+			}
+			return nil
+		})
+		cfg := rig.DefaultServerConfig()
+		cfg.ChannelBufferSize = 4
+		cfg.Established = func(id string, ch *lime.ServerChannel) {
+			mu.Lock()
+			srvCh = ch
+			mu.Unlock()
+			select {
+			case est <- struct{}{}:
+			default:
+			}
+		}
+		sr, err := rig.StartServer(cfg, mux, []string{flavour}, 0)
+		if err != nil {
+			r.Verdict = core.Inconclusive
+			r.Note = err.Error()
+			return
+		}
+		ctx, cancel := context.WithTimeout(context.Background(), 30*time.Second)
+		cc, _, err := sr.EstablishClient(ctx, flavour, 4, 4, lime.Identity{Name: "late", Domain: "verif.local"}, "i")
+		if err != nil {
+			cancel()
+			sr.Close(10 * time.Second)
+			r.Verdict = core.Inconclusive
+			r.Note = err.Error()
+			return
+		}
+		select {
+		case <-est:
+		case <-time.After(5 * time.Second):
+		}
+		mu.Lock()
+		sc := srvCh
+		mu.Unlock()
+		if sc == nil {
+			cancel()
+			_ = cc.Close()
+			sr.Close(10 * time.Second)
+			r.Verdict = core.Inconclusive
+			r.Note = "no Established callback"
+			return
+		}
+		release = make(chan struct{})
+		atomic.StoreInt32(&armed, 1)
+		sendErr := make(chan error, 1)
+		go func() {
+			m := &lime.Message{}
+			m.ID = "late"
+			m.SetContent(lime.TextDocument("after the end"))
+			sendErr <- cc.SendMessage(ctx, m)
+		}()
+		held := false
+		select {
+		case <-entered:
+			held = true
+		case <-time.After(5 * time.Second):
+		}
+		r.Evals++
+		r.Count("runs", 1)
+		if !held {
+			atomic.StoreInt32(&armed, 0)
+			r.Count("latesend_hook_not_reached", 1)
+		} else {
+			srvT := sc.VerifTransport()
+			_ = sc.FinishSession(ctx)
+			// the client applies the finished session
+			for i := 0; i < 2500 && cc.State() != lime.SessionStateFinished; i++ {
+				time.Sleep(2 * time.Millisecond)
+			}
+			ended := cc.State() == lime.SessionStateFinished
+			close(release)
+			var serr error
+			select {
+			case serr = <-sendErr:
+			case <-time.After(10 * time.Second):
+				serr = fmt.Errorf("send still blocked")
+			}
+			r.Count("latesend_held", 1)
+			if ended {
+				r.Count("stage_checks", 1)
+				// (The send overlaps the end of the session: it may be ordered before it, so neither its result nor bytes
+				// written to a connection the peer has already left are judged - over TCP the write succeeds. What must
+				// not happen is the peer's application seeing it.)
+				if serr == nil {
+					r.Count("latesend_returned_nil", 1)
+				} else {
+					r.Count("latesend_returned_error", 1)
+				}
+				_ = srvT
+				mu.Lock()
+				if lateAtHandler {
+					r.Violate("C06/late-send-dispatched/"+flavour, fmt.Sprintf("%s: the data envelope sent after the end of the session reached the server's handler", tag))
+				}
+				mu.Unlock()
+			}
+		}
+		cancel()
+		_ = cc.Close()
+		sr.Close(10 * time.Second)
+		r.Fingerprints = append(r.Fingerprints, "latesend|"+flavour)
+	}
 }
